@@ -489,6 +489,26 @@ theorem blocks_may_be_recycled (s : GoNfsd.Model.BlockMap.S) (roots : Nat → Li
     GoNfsd.Model.BlockMap.MWF { s with allocs := s.allocs ++ L } roots :=
   GoNfsd.Model.BlockMap.mrecycle s roots L h hL hd
 
+/-- ... composed: after ANY history of mappings, truncations and reuse of freed blocks on any
+    number of files (each truncation starting at its file's bookkeeping bound, each reused block
+    owned by nobody, zero and not in the allocator already) no block has two owners. -/
+theorem one_owner_across_files_after_any_history (allocs : List Nat)
+    (hd : GoNfsd.Model.BlockMap.DistinctNZ allocs) (ops : List GoNfsd.Model.BlockMap.MOp)
+    (hv : GoNfsd.Model.BlockMap.MValid ({ st := GoNfsd.Model.BlockMap.emptyStore, allocs := allocs }, fun _ => List.replicate (NDIRECT + 2) 0) ops) :
+    GoNfsd.Model.BlockMap.MWF
+      (ops.foldl GoNfsd.Model.BlockMap.mapply ({ st := GoNfsd.Model.BlockMap.emptyStore, allocs := allocs }, fun _ => List.replicate (NDIRECT + 2) 0)).1
+      (ops.foldl GoNfsd.Model.BlockMap.mapply ({ st := GoNfsd.Model.BlockMap.emptyStore, allocs := allocs }, fun _ => List.replicate (NDIRECT + 2) 0)).2 :=
+  GoNfsd.Model.BlockMap.mhistory_wf ops _ (GoNfsd.Model.BlockMap.MWF_empty allocs hd) hv
+
+/-- Non-vacuity: file 1 maps a direct and an indirect block, is truncated to nothing, its three
+    blocks go back to the allocator, file 2 takes two of them: the history is valid. -/
+example :
+    let ops : List GoNfsd.Model.BlockMap.MOp := [.map 1 3, .map 1 9, .shrink 1 0 10, .recycle [102, 101, 100], .map 2 0, .map 2 8]
+    let r := ops.foldl GoNfsd.Model.BlockMap.mapply
+      ({ st := GoNfsd.Model.BlockMap.emptyStore, allocs := [100, 101, 102] }, fun _ => List.replicate (NDIRECT + 2) 0)
+    (r.2 1, r.2 2, r.1.allocs, r.1.freed) = ([0, 0, 0, 0, 0, 0, 0, 0, 0, 0], [102, 0, 0, 0, 0, 0, 0, 0, 101, 0], [], [100, 101, 102]) := by
+  decide
+
 /-- Non-vacuity: two files take turns at the allocator (direct, indirect and double-indirect blocks):
     all pointers differ. -/
 example :
